@@ -182,7 +182,7 @@ def canon(expr, env=None):
                         depth += 1
                     elif y in (")", "]", "}"):
                         depth -= 1
-                    elif depth == 0 and not (IDENT.match(y) or y in (".", "::", "#") or re.match(r'^[0-9]', y)):
+                    elif depth == 0 and not (IDENT.match(y) or y in (".", "::", "#", "$") or re.match(r'^[0-9]', y)):
                         simple = False
                         break
                 if simple:
@@ -192,7 +192,8 @@ def canon(expr, env=None):
     t2 = project_struct_literals(list(t))
     if t2 != t:
         return canon(" ".join(t2))
-    return "".join(t)
+    r = "".join(t)
+    return alpha(r) if "|" in r else r
 
 
 def split_top(s, sep=","):
@@ -283,6 +284,7 @@ class Eval:
         self.features = features
         self.types = types or {}
         self.mutable = set()
+        self.nlet = 0
 
     # ---- patterns
     def pat_bind(self, pat, value, env):
@@ -512,11 +514,23 @@ class Eval:
         return v
 
     # ---- nodes
-    def walk(self, nodes, env, benv, pc):
-        """returns (normal-form nodes, condition under which control flows past `nodes`)"""
+    def merge(self, env, branch_envs, out, g, line):
+        """after a branching statement: a mutable variable whose value differs between the branches gets a phi"""
+        for v in list(env):
+            vals = [e.get(v, env[v]) for e in branch_envs]
+            if v in self.mutable and any(x != vals[0] for x in vals[1:]):
+                self.nlet += 1
+                ref = "$L%d" % self.nlet
+                out.append({"g": g, "kind": "let", "attrs": (ref, "phi(%s)" % "|".join(vals)), "children": [], "line": line})
+                env[v] = ref
+
+    def walk(self, nodes, env, benv, pc, ret_env=False):
+        """returns (normal-form nodes, condition under which control flows past `nodes`);
+        with ret_env the caller's env dict is updated in place (used to merge branch environments)"""
         out = []
         alive = pc
-        env = dict(env)
+        if not ret_env:
+            env = dict(env)
         benv = dict(benv)
         for n in nodes:
             k = n["k"]
@@ -537,17 +551,26 @@ class Eval:
                 else:
                     val = canon(n["expr"], env)
                 if len(tp) == 1 and IDENT.match(tp[0]):
-                    env[tp[0]] = val
-                    if n.get("mutable"):
-                        self.mutable.add(tp[0])
-                    # boolean-ish definitions are kept as formulas as well
+                    is_formula = False
+                    # boolean-ish definitions are kept as formulas (they are used in guards, not emitted)
                     try:
                         f = self.cond(n["cond"], env, benv)
                         simple = "atom" in n["cond"] and not re.search(r'is_empty|is_some|is_none|matches\s*!|==|!=|^true$|^false$', n["cond"]["atom"])
                         if not simple:
                             benv[tp[0]] = f
+                            is_formula = True
                     except Undecided:
                         pass
+                    if not is_formula and ("(" in val or "?" in val or "!" in val):
+                        # a computed value: keep ONE definition (sharing and evaluation order are part of the
+                        # normal form), referred to by position so that the local's name does not matter
+                        self.nlet += 1
+                        ref = "$L%d" % self.nlet
+                        out.append({"g": g, "kind": "let", "attrs": (ref, val), "children": [], "line": n.get("line")})
+                        val = ref
+                    env[tp[0]] = val
+                    if n.get("mutable"):
+                        self.mutable.add(tp[0])
                 elif pat.strip() == "_":
                     pass
                 else:
@@ -555,11 +578,14 @@ class Eval:
             elif k == "stmt" or k == "macro":
                 st = toks(n["text"])
                 touched = [v for v in self.mutable if v in st and v in env]
-                for v in touched:
-                    e2 = dict(env)
-                    e2[v] = "$"
-                    env[v] = "upd(%s|%s)" % (env[v], canon(n["text"], e2))
-                out.append({"g": g, "kind": "stmt", "attrs": (canon(n["text"], env) if not touched else "update:" + ",".join(touched),), "children": [], "line": n.get("line")})
+                if touched:
+                    for v in touched:
+                        self.nlet += 1
+                        ref = "$L%d" % self.nlet
+                        out.append({"g": g, "kind": "let", "attrs": (ref, "upd(%s|%s)" % (env[v], canon(n["text"], env))), "children": [], "line": n.get("line")})
+                        env[v] = ref
+                else:
+                    out.append({"g": g, "kind": "stmt", "attrs": (canon(n["text"], env),), "children": [], "line": n.get("line")})
             elif k == "prim":
                 out.append({"g": g, "kind": "prim", "attrs": (n["method"],) + tuple(canon(a, env) for a in n["args"]), "children": [], "line": n.get("line")})
             elif k == "cons":
@@ -586,15 +612,19 @@ class Eval:
             elif k == "if":
                 e_then = dict(env)
                 c = self.cond(n["cond"], env, benv, bind_env=e_then)
-                nt, at = self.walk(n["then"], e_then, benv, z3.And(g, c))
-                ne, ae = self.walk(n["else"], env, benv, z3.And(g, z3.Not(c)))
+                e_else = dict(env)
+                nt, at = self.walk(n["then"], e_then, benv, z3.And(g, c), ret_env=True)
+                ne, ae = self.walk(n["else"], e_else, benv, z3.And(g, z3.Not(c)), ret_env=True)
                 out.extend(nt)
                 out.extend(ne)
-                alive = z3.Or(at, ae)
+                # without an early return in either branch control continues exactly as before
+                alive = z3.Or(at, ae) if any(has_kind(x, "ret") for x in nt + ne) else g
+                self.merge(env, [e_then, e_else], out, g, n.get("line"))
             elif k == "match":
                 on = canon(n["on"], env)
                 prev = []
                 alives = []
+                envs = []
                 for arm in n["arms"]:
                     if arm.get("cfg") and not self.cfg_on(arm["cfg"]):
                         continue
@@ -604,16 +634,25 @@ class Eval:
                         c = z3.And(c, self.cond(self.parse_cond(arm["guard"]), e2, benv))
                     gc = z3.And(*([c] + [z3.Not(p) for p in prev]))
                     prev.append(c)
-                    na, aa = self.walk(arm["body"], e2, benv, z3.And(g, gc))
+                    na, aa = self.walk(arm["body"], e2, benv, z3.And(g, gc), ret_env=True)
                     out.extend(na)
                     alives.append(aa)
-                alive = z3.Or(*alives) if alives else g
+                    envs.append(e2)
+                alive = z3.Or(*alives) if (alives and any(x["kind"] == "ret" or has_kind(x, "ret") for x in out)) else g
+                self.merge(env, envs, out, g, n.get("line"))
             elif k == "for":
                 it = canon(n["iter"], env)
                 e2 = dict(env)
                 self.pat_bind(n["pat"], "elem(%s)" % it, e2)
-                ch, _ = self.walk(n["body"], e2, benv, z3.BoolVal(True))
+                ch, _ = self.walk(n["body"], e2, benv, z3.BoolVal(True), ret_env=True)
                 out.append({"g": g, "kind": "for", "attrs": (it,), "children": ch, "line": n.get("line")})
+                # variables updated by the loop body carry a loop-dependent value afterwards
+                for v in list(env):
+                    if v in e2 and e2[v] != env[v] and v in self.mutable:
+                        self.nlet += 1
+                        ref = "$L%d" % self.nlet
+                        out.append({"g": g, "kind": "let", "attrs": (ref, "after_loop(%s|%s)" % (env[v], it)), "children": [], "line": n.get("line")})
+                        env[v] = ref
             elif k == "return":
                 out.append({"g": g, "kind": "ret", "attrs": (canon(n["expr"], env),), "children": [], "line": n.get("line")})
                 alive = z3.BoolVal(False)
@@ -633,6 +672,34 @@ def has_emission(n):
     return n["kind"] in ("cons", "tagged", "prim", "call") or any(has_emission(c) for c in n["children"])
 
 
+def alpha(text):
+    """rename closure parameters inside an expression text positionally (|a, b| … -> |_0,_1| …)"""
+    t = toks(text)
+    out = list(t)
+    i = 0
+    k = 0
+    while i < len(t):
+        if t[i] == "|" and (i == 0 or t[i - 1] in ("(", ",", "=", "{", "return", "move")):
+            j = i + 1
+            names = []
+            while j < len(t) and t[j] != "|":
+                if IDENT.match(t[j]) and t[j] not in ("mut", "ref"):
+                    names.append(t[j])
+                j += 1
+            if j < len(t):
+                ren = {}
+                for nme in names:
+                    if nme != "_":
+                        ren[nme] = "_%d" % k
+                        k += 1
+                for q in range(i, len(t)):
+                    if out[q] in ren and not (q > 0 and t[q - 1] in (".", "::")):
+                        out[q] = ren[out[q]]
+                i = j
+        i += 1
+    return "".join(out)
+
+
 def has_kind(n, kind):
     return n["kind"] == kind or any(has_kind(c, kind) for c in n["children"])
 
@@ -650,9 +717,11 @@ def render(n, flat=False):
     elif n["kind"] == "for":
         s = "for " + a[0]
     elif n["kind"] == "ret":
-        s = "ret " + a[0]
+        s = ("ret " + a[0]).strip()
     elif n["kind"] == "stmt":
         s = "stmt " + a[0]
+    elif n["kind"] == "let":
+        s = "let %s = %s" % (a[0], a[1])
     else:
         s = n["kind"]
     if flat and n["children"]:
@@ -746,6 +815,7 @@ def dump(nf, ind=0, lines=None, skip_stmt=True, theory=()):
 
 
 # ----------------------------------------------------------------------------- front end
+S_FEATURES = {"crypto", "pem", "ring", "x509-parser"}
 _skel_cache = {}
 
 
@@ -762,7 +832,12 @@ def skeleton(repo=None):
     if r.returncode != 0:
         raise Undecided("vx skel failed: " + r.stderr[-300:])
     units = {}
+    import verus_unit as vu
     for u in json.loads(r.stdout)["units"]:
+        if u.get("cfg"):
+            on = vu.cfg_on("#[%s]" % u["cfg"].replace(" ", ""), S_FEATURES)
+            if on is False:
+                continue
         units[u["unit"]] = u
     enums = {}
     for f in files:
@@ -776,7 +851,7 @@ def skeleton(repo=None):
     return units, enums
 
 
-def normal_form(unit_name, features=("crypto", "pem", "ring"), options=(), repo=None):
+def normal_form(unit_name, features=tuple(sorted(S_FEATURES)), options=(), repo=None):
     units, enums = skeleton(repo)
     if unit_name not in units:
         raise Undecided("lost anchor: writer function %s not found" % unit_name)
@@ -787,7 +862,7 @@ def normal_form(unit_name, features=("crypto", "pem", "ring"), options=(), repo=
     return nf, at, u
 
 
-if __name__ == "__main__":
+if __name__ == "__main__" and not (len(__import__("sys").argv) > 1 and __import__("sys").argv[1] == "--check"):
     import sys
     units, enums = skeleton()
     names = sys.argv[1:] or sorted(units)
@@ -799,3 +874,532 @@ if __name__ == "__main__":
         except Undecided as e:
             print("  UNDECIDED:", e)
         print()
+
+
+# ----------------------------------------------------------------------------- summary contracts
+ATOM_PREFIX = ("some:", "empty:", "is:", "atom:")
+
+
+def parse_guard(text, at):
+    """guard syntax of .sum files:  !x  a & b  a | b  ( … )  over atoms some:/empty:/is:/atom: (no blanks inside an atom)"""
+    raw = text.split()
+    tk = []
+    for w in raw:
+        if w in ("&", "|"):
+            tk.append(w)
+            continue
+        pre = []
+        while w and not w.startswith(ATOM_PREFIX) and w[0] in "!(":
+            pre.append(w[0])
+            w = w[1:]
+        post = []
+        if w in ("true", "false"):
+            pass
+        else:
+            # trailing ')' beyond the atom's own balance close groups
+            while w.endswith(")") and w.count("(") < w.count(")"):
+                post.append(")")
+                w = w[:-1]
+        while w.endswith(")") and w in ("true)", "false)"):
+            post.append(")")
+            w = w[:-1]
+        tk += pre + [w] + post
+    pos = [0]
+
+    def peek():
+        return tk[pos[0]] if pos[0] < len(tk) else None
+
+    def p_or():
+        l = p_and()
+        while peek() == "|":
+            pos[0] += 1
+            l = z3.Or(l, p_and())
+        return l
+
+    def p_and():
+        l = p_not()
+        while peek() == "&":
+            pos[0] += 1
+            l = z3.And(l, p_not())
+        return l
+
+    def p_not():
+        if peek() == "!":
+            pos[0] += 1
+            return z3.Not(p_not())
+        if peek() == "(":
+            pos[0] += 1
+            r = p_or()
+            if peek() != ")":
+                raise ValueError("unbalanced guard: " + text)
+            pos[0] += 1
+            return r
+        a = peek()
+        pos[0] += 1
+        if a == "true":
+            return z3.BoolVal(True)
+        if a == "false":
+            return z3.BoolVal(False)
+        if a is None or not a.startswith(ATOM_PREFIX):
+            raise ValueError("bad atom '%s' in guard: %s" % (a, text))
+        if a.startswith("is:"):
+            body = a[3:]
+            x, v = body.rsplit(":", 1)
+            return at.is_variant(x, at.enum_of.get(x), v)
+        return at.A(a)
+
+    r = p_or()
+    if pos[0] != len(tk):
+        raise ValueError("trailing tokens in guard: " + text)
+    return r
+
+
+def parse_sum(path):
+    """returns list of units: {unit, file, options, lines:[(indent, text, guard_text, lineno)], consts}"""
+    units, cur = [], None
+    for ln, line in enumerate(open(path), 1):
+        if line.startswith("#") or not line.strip():
+            continue
+        if line.startswith("@unit"):
+            parts = line.split()
+            cur = {"unit": parts[1], "file": parts[2], "options": [], "lines": [], "path": path, "vc": [], "note": ""}
+            for p in parts[3:]:
+                if p.startswith("options="):
+                    cur["options"] = [x for x in p[8:].split(",") if x]
+            units.append(cur)
+        elif line.startswith("@vc"):
+            cur["vc"].append(line[3:].strip())
+        elif line.startswith("@end"):
+            cur = None
+        elif cur is not None:
+            body = line.rstrip("\n")
+            ind = (len(body) - len(body.lstrip(" "))) // 2
+            body = body.strip()
+            guard = ""
+            if "    when " in body:
+                body, guard = body.split("    when ", 1)
+            cur["lines"].append((ind, body.strip(), guard.strip(), ln))
+    return units
+
+
+def tree_of(lines):
+    root = {"children": []}
+    stack = [(-1, root)]
+    for ind, text, guard, ln in lines:
+        node = {"text": text, "guard": guard, "ln": ln, "children": []}
+        while stack and stack[-1][0] >= ind:
+            stack.pop()
+        stack[-1][1]["children"].append(node)
+        stack.append((ind, node))
+    return root["children"]
+
+
+class Mismatch(Exception):
+    def __init__(self, msg, model=None, line=None, cline=None):
+        Exception.__init__(self, msg)
+        self.model, self.line, self.cline = model, line, cline
+
+
+def model_of(f, theory):
+    s = z3.Solver()
+    s.add(*theory)
+    s.add(f)
+    if s.check() != z3.sat:
+        return None
+    m = s.model()
+    return {str(d): bool(m[d]) for d in m.decls()}
+
+
+def compare(code_nodes, want_nodes, at, keep_stmt, path="", outer=None):
+    """structural comparison with semantic guard equivalence; raises Mismatch"""
+    outer = z3.BoolVal(True) if outer is None else outer
+    th = at.theory()
+    code = []
+    for n in code_nodes:
+        if n["kind"] == "stmt" and not keep_stmt:
+            continue
+        # statically dead nodes (guard unsatisfiable under the enclosing guard) are not emissions
+        s = z3.Solver()
+        s.add(*th)
+        s.add(outer, n["g"])
+        if s.check() == z3.unsat:
+            continue
+        code.append(n)
+    i = 0
+    for i in range(max(len(code), len(want_nodes))):
+        if i >= len(code):
+            w = want_nodes[i]
+            raise Mismatch("missing emission: the contract requires `%s`%s at %s but the code emits nothing there" % (w["text"], (" when " + w["guard"]) if w["guard"] else "", path or "top level"),
+                           model=model_of(z3.And(outer, parse_guard(w["guard"], at)) if w["guard"] else outer, at.theory()), cline=w["ln"])
+        c = code[i]
+        if i >= len(want_nodes):
+            raise Mismatch("extra emission: the code emits `%s` (line %s) at %s which the contract does not allow" % (render(c), c.get("line"), path or "top level"),
+                           model=model_of(z3.And(outer, c["g"]), at.theory()), line=c.get("line"))
+        w = want_nodes[i]
+        if render(c) != w["text"]:
+            raise Mismatch("emission differs at %s: code (line %s) `%s` — contract (line %s) `%s`" % (path or "top level", c.get("line"), render(c), w["ln"], w["text"]),
+                           model=model_of(z3.And(outer, c["g"]), at.theory()), line=c.get("line"), cline=w["ln"])
+        wg = parse_guard(w["guard"], at) if w["guard"] else z3.BoolVal(True)
+        th = at.theory()
+        diff = model_of(z3.And(outer, z3.Xor(c["g"], wg)), th)
+        if diff is not None:
+            raise Mismatch("guard differs for `%s` (code line %s): code emits it when [%s], the contract requires [%s]" % (w["text"], c.get("line"), fmt_guard(c["g"], th) or "always", w["guard"] or "always"),
+                           model=diff, line=c.get("line"), cline=w["ln"])
+        compare(c["children"], w["children"], at, keep_stmt, path + "/" + w["text"].split("(")[0], z3.And(outer, c["g"]))
+
+
+def emits_guard(nodes, at, callee_emits):
+    """condition under which a list of normal-form nodes writes at least one element"""
+    gs = []
+    for n in nodes:
+        if n["kind"] in ("cons", "tagged", "prim"):
+            gs.append(n["g"])
+        elif n["kind"] == "call":
+            callee = n["attrs"][0]
+            key = callee.split(".")[-1]
+            if callee in callee_emits:
+                gs.append(z3.And(n["g"], callee_emits[callee]))
+            elif key in callee_emits:
+                gs.append(z3.And(n["g"], callee_emits[key]))
+            else:
+                gs.append(n["g"])
+        elif n["kind"] == "for":
+            gs.append(z3.And(n["g"], z3.Not(at.empty(n["attrs"][0]))))
+    return z3.Or(*gs) if gs else z3.BoolVal(False)
+
+
+def find_nodes(nodes, pred, acc=None, pc=None):
+    acc = [] if acc is None else acc
+    pc = z3.BoolVal(True) if pc is None else pc
+    for n in nodes:
+        g = z3.And(pc, n["g"])
+        if pred(n):
+            acc.append((n, g))
+        find_nodes(n["children"], pred, acc, g)
+    return acc
+
+
+def emit_unit(name, props, options=()):
+    nf, at, u = normal_form(name, options=options)
+    keep = not any(has_emission(x) for x in nf)
+    hdr = "@unit %s %s props=%s" % (name, u["file"].replace(REPO + "/", ""), ",".join(props))
+    if options:
+        hdr += " options=" + ",".join(options)
+    return hdr + "\n" + "\n".join(dump(nf, theory=at.theory(), skip_stmt=not keep)) + "\n@end\n"
+
+
+# ----------------------------------------------------------------------------- property-level VCs
+CALLEE_UNITS = {
+    "self.write_key_usage": "CertificateParams::write_key_usage",
+    "self.write_subject_alt_names": "CertificateParams::write_subject_alt_names",
+    "self.write_extended_key_usage": "CertificateParams::write_extended_key_usage",
+    "write_x509_authority_key_identifier": "write_x509_authority_key_identifier",
+    "self.write_extension_request_attribute": "CertificateParams::write_extension_request_attribute",
+}
+
+
+class Ctx:
+    """normal forms of several units over ONE atom table (so that guards can be combined)"""
+
+    def __init__(self, options=()):
+        self.units, self.enums = skeleton()
+        self.at = Atoms(self.enums, options)
+        self.nf = {}
+
+    def get(self, unit):
+        if unit not in self.nf:
+            if unit not in self.units:
+                raise Undecided("lost anchor: function %s not found" % unit)
+            ev = Eval(self.at, set(S_FEATURES))
+            self.nf[unit], _ = ev.walk(self.units[unit]["body"], {}, {}, z3.BoolVal(True))
+        return self.nf[unit]
+
+    def theory(self):
+        return self.at.theory()
+
+
+def ext_sites(ctx, nodes, pc):
+    """all X.509 extension emission sites below `nodes`: (oid text, critical text, guard, line, via)"""
+    sites = []
+    for n in nodes:
+        g = z3.And(pc, n["g"])
+        if n["kind"] == "call":
+            callee = n["attrs"][0]
+            if callee == "write_x509_extension":
+                sites.append((n["attrs"][2], n["attrs"][3], g, n.get("line"), "direct"))
+            elif callee in CALLEE_UNITS:
+                sub = ctx.get(CALLEE_UNITS[callee])
+                for (o, c, g2, ln, via) in ext_sites(ctx, sub, g):
+                    sites.append((o, c, g2, ln, callee))
+            else:
+                for ch in n["children"]:
+                    sites += ext_sites(ctx, ch["children"], g)
+        elif n["kind"] == "for":
+            inner = ext_sites(ctx, n["children"], z3.And(g, z3.Not(ctx.at.empty(n["attrs"][0]))))
+            sites += inner
+        elif n["kind"] in ("cons", "tagged", "closure"):
+            sites += ext_sites(ctx, n["children"], g)
+    return sites
+
+
+def check_ext_table(ctx, sites, table, what):
+    """table: oid text -> (request guard text or None, expected critical text, mode) ; mode 'iff' | 'custom'.
+    Returns list of (vc name, ok, detail, model)."""
+    res = []
+    th_atoms = ctx.at
+    by_oid = {}
+    for s in sites:
+        by_oid.setdefault(s[0], []).append(s)
+    for oid, ss in by_oid.items():
+        if oid not in table:
+            res.append(("%s.no_other_extension[%s]" % (what, oid), False,
+                        "the code writes extension %s (line %s) which the property does not allow" % (oid, ss[0][3]), model_of(ss[0][2], ctx.theory())))
+    for oid, (req, crit, mode) in table.items():
+        ss = by_oid.get(oid, [])
+        if not ss:
+            res.append(("%s.present_iff_requested[%s]" % (what, oid), False, "extension %s is never written" % oid,
+                        model_of(parse_guard(req, th_atoms), ctx.theory()) if req else None))
+            continue
+        union = z3.Or(*[s[2] for s in ss])
+        if mode == "iff":
+            want = parse_guard(req, th_atoms) if req else z3.BoolVal(True)
+            m = model_of(z3.Xor(union, want), ctx.theory())
+            res.append(("%s.present_iff_requested[%s]" % (what, oid), m is None,
+                        "written when [%s]; the property requires [%s]" % (fmt_guard(union, ctx.theory()) or "always", req or "always"), m))
+        # at most once
+        dup = None
+        for i in range(len(ss)):
+            for j in range(i + 1, len(ss)):
+                m = model_of(z3.And(ss[i][2], ss[j][2]), ctx.theory())
+                if m is not None:
+                    dup = (ss[i][3], ss[j][3], m)
+        if mode == "iff":
+            res.append(("%s.oid_at_most_once[%s]" % (what, oid), dup is None,
+                        "two emission sites (lines %s and %s) can both be active" % (dup[0], dup[1]) if dup else "emission sites are mutually exclusive", dup[2] if dup else None))
+        bad = [s for s in ss if s[1] != crit]
+        res.append(("%s.criticality[%s]" % (what, oid), not bad,
+                    "critical flag is `%s` (line %s), required `%s`" % (bad[0][1], bad[0][3], crit) if bad else "critical = %s" % crit, None))
+    return res
+
+
+def wrapper_vc(ctx, wrapper_guard, inner_nodes, name):
+    """the wrapper is written exactly when at least one inner element is"""
+    callee_emits = {}
+    for c, u in CALLEE_UNITS.items():
+        try:
+            callee_emits[c] = emits_guard(ctx.get(u), ctx.at, {})
+        except Undecided:
+            pass
+    inner = emits_guard(inner_nodes, ctx.at, callee_emits)
+    m = model_of(z3.Xor(wrapper_guard, z3.And(wrapper_guard, inner)), ctx.theory())   # wrapper written but empty
+    res = [(name + ".not_empty", m is None, "wrapper written while nothing inside it is" if m else "whenever the wrapper is written something inside it is", m)]
+    return res, inner
+
+
+CERT_EXT_TABLE = {
+    # RFC 5280 4.2 + property C02/C05: extension -> (present iff, critical)
+    "oid::AUTHORITY_KEY_IDENTIFIER": ("atom:self.use_authority_key_identifier_extension", "false", "iff"),
+    "oid::SUBJECT_ALT_NAME": ("!empty:self.subject_alt_names", "self.distinguished_name.entries.is_empty()", "iff"),
+    "oid::KEY_USAGE": ("!empty:self.key_usages", "true", "iff"),
+    "oid::EXT_KEY_USAGE": ("!empty:self.extended_key_usages", "false", "iff"),
+    "oid::NAME_CONSTRAINTS": ("some:self.name_constraints & !empty:unwrap(self.name_constraints)", "true", "iff"),
+    "oid::CRL_DISTRIBUTION_POINTS": ("!empty:self.crl_distribution_points", "false", "iff"),
+    "oid::SUBJECT_KEY_IDENTIFIER": ("!is:self.is_ca:NoCa", "false", "iff"),
+    "oid::BASIC_CONSTRAINTS": ("!is:self.is_ca:NoCa", "true", "iff"),
+    "elem(self.custom_extensions).oid": ("!empty:self.custom_extensions", "elem(self.custom_extensions).critical", "iff"),
+}
+CSR_EXT_TABLE = {
+    "oid::SUBJECT_ALT_NAME": ("!empty:self.subject_alt_names", "self.distinguished_name.entries.is_empty()", "iff"),
+    "oid::KEY_USAGE": ("!empty:self.key_usages", "true", "iff"),
+    "oid::EXT_KEY_USAGE": ("!empty:self.extended_key_usages", "false", "iff"),
+    "elem(self.custom_extensions).oid": ("!empty:self.custom_extensions", "elem(self.custom_extensions).critical", "iff"),
+}
+CRL_EXT_TABLE = {
+    "oid::AUTHORITY_KEY_IDENTIFIER": (None, "false", "iff"),
+    "oid::CRL_NUMBER": (None, "false", "iff"),
+    "oid::CRL_ISSUING_DISTRIBUTION_POINT": ("some:self.issuing_distribution_point", "true", "iff"),
+}
+ENTRY_EXT_TABLE = {
+    # reason: present when a reason other than unspecified is given, absent when none is given (unspecified: either)
+    "oid::CRL_REASONS": (None, "false", "custom"),
+    "oid::CRL_INVALIDITY_DATE": ("some:self.invalidity_date", "false", "iff"),
+}
+
+
+def find_first(nodes, pred, pc=None):
+    r = find_nodes(nodes, pred)
+    return r[0] if r else (None, None)
+
+
+def vcs_cert():
+    ctx = Ctx(options=("self.name_constraints", "self.serial_number"))
+    nf = ctx.get("CertificateParams::serialize_der_with_signer")
+    w, wg = find_first(nf, lambda n: n["kind"] == "tagged" and n["attrs"] == ("expl", "Tag::context(3)"))
+    if w is None:
+        raise Undecided("lost anchor: no [3] EXPLICIT wrapper in serialize_der_with_signer")
+    res = []
+    seq = w["children"][0]["children"] if w["children"] and w["children"][0]["kind"] == "cons" else w["children"]
+    sites = ext_sites(ctx, seq, wg)
+    res += check_ext_table(ctx, sites, CERT_EXT_TABLE, "cert")
+    r2, inner = wrapper_vc(ctx, wg, seq, "cert.ext_wrapper")
+    res += r2
+    # nothing requested is dropped: if any extension is requested the wrapper must be there
+    req_any = z3.Or(*[parse_guard(v[0], ctx.at) for v in CERT_EXT_TABLE.values()])
+    m = model_of(z3.Xor(wg, req_any), ctx.theory())
+    res.append(("cert.ext_wrapper.iff_any_requested", m is None,
+                "the [3] block is written when [%s]; required: exactly when some extension is requested" % (fmt_guard(wg, ctx.theory()) or "always"), m))
+    # every CA certificate carries a subject key identifier
+    ski = [s for s in sites if s[0] == "oid::SUBJECT_KEY_IDENTIFIER"]
+    if ski:
+        m = model_of(z3.And(ctx.at.is_variant("self.is_ca", "IsCa", "Ca"), z3.Not(z3.Or(*[s[2] for s in ski]))), ctx.theory())
+        res.append(("cert.ski_in_every_ca", m is None, "a CA certificate without subject key identifier is possible" if m else "is_ca = Ca(_) implies the subject key identifier is written", m))
+    # version 3 always
+    v, vg = find_first(nf, lambda n: n["kind"] == "tagged" and n["attrs"] == ("expl", "Tag::context(0)"))
+    ok = v is not None and valid(vg, ctx.theory()) and [render(c) for c in v["children"]] == ["prim write_u8(2)"]
+    res.append(("cert.version_v3", ok, "version [0] EXPLICIT INTEGER 2 written unconditionally" if ok else "version field is not an unconditional [0]{2}", None))
+    return res, ctx
+
+
+def vcs_csr():
+    ctx = Ctx(options=("self.name_constraints", "self.serial_number"))
+    nf = ctx.get("CertificateParams::serialize_request_with_attributes")
+    res = []
+    th = ctx.theory
+    # refusal rule (property C07): the five fields a CSR cannot express
+    want = parse_guard("some:self.serial_number | !is:self.is_ca:NoCa | some:self.name_constraints | !empty:self.crl_distribution_points | atom:self.use_authority_key_identifier_extension", ctx.at)
+    rets = [(n, g) for n, g in find_nodes(nf, lambda n: n["kind"] == "ret" and "UnsupportedInCsr" in n["attrs"][0])]
+    refuse = z3.Or(*[g for _, g in rets]) if rets else z3.BoolVal(False)
+    m = model_of(z3.Xor(refuse, want), th())
+    res.append(("csr.refusal_rule", m is None, "refused when [%s]; the property requires refusal exactly when one of the five unsupported fields is set" % (fmt_guard(refuse, th()) or "never"), m))
+    signs = find_nodes(nf, lambda n: n["kind"] == "call" and n["attrs"][0].endswith(".sign_der"))
+    if not signs:
+        raise Undecided("lost anchor: no sign_der call in serialize_request_with_attributes")
+    sg = z3.Or(*[g for _, g in signs])
+    m = model_of(z3.And(sg, want), th())
+    res.append(("csr.refusal_dominates_signing", m is None, "the request is signed although an unsupported field is set" if m else "nothing is signed when the request must be refused", m))
+    m = model_of(z3.And(z3.Not(sg), z3.Not(want)), th())
+    res.append(("csr.supported_is_signed", m is None, "a supported parameter set is not signed" if m else "every supported parameter set reaches the signer", m))
+    # extension request attribute: present iff any of the four sources is non-empty; contents per table
+    sn, _ = signs[0]
+    body = sn["children"][0]["children"] if sn["children"] else []
+    er, eg = find_first(body, lambda n: n["kind"] == "call" and n["attrs"][0] == "self.write_extension_request_attribute")
+    if er is None:
+        raise Undecided("lost anchor: extension request attribute call not found")
+    era = ctx.get("CertificateParams::write_extension_request_attribute")
+    sites = ext_sites(ctx, era, z3.BoolVal(True))
+    res += check_ext_table(ctx, sites, CSR_EXT_TABLE, "csr.extreq")
+    any_req = z3.Or(*[parse_guard(v[0], ctx.at) for v in CSR_EXT_TABLE.values()])
+    m = model_of(z3.Xor(eg, any_req), th())
+    res.append(("csr.extreq.iff_any_requested", m is None, "extension request attribute written when [%s]" % (fmt_guard(eg, th()) or "always"), m))
+    n_er = len(find_nodes(body, lambda n: n["kind"] == "call" and n["attrs"][0] == "self.write_extension_request_attribute"))
+    res.append(("csr.extreq.at_most_one", n_er == 1, "%d emission site(s) of the extension request attribute" % n_er, None))
+    return res, ctx
+
+
+def vcs_crl():
+    ctx = Ctx(options=("self.issuing_distribution_point", "self.reason_code", "self.invalidity_date", "self.scope"))
+    nf = ctx.get("CertificateRevocationListParams::serialize_der")
+    res = []
+    th = ctx.theory
+    w, wg = find_first(nf, lambda n: n["kind"] == "tagged" and n["attrs"] == ("expl", "Tag::context(0)"))
+    if w is None:
+        raise Undecided("lost anchor: no [0] EXPLICIT crlExtensions in serialize_der")
+    res.append(("crl.extensions_always", valid(wg, th()), "crlExtensions [0] written unconditionally" if valid(wg, th()) else "crlExtensions is conditional", model_of(z3.Not(wg), th())))
+    seq = w["children"][0]["children"] if w["children"] and w["children"][0]["kind"] == "cons" else w["children"]
+    res += check_ext_table(ctx, ext_sites(ctx, seq, wg), CRL_EXT_TABLE, "crl")
+    # revokedCertificates absent iff nothing revoked
+    rl = find_nodes(nf, lambda n: n["kind"] == "for" and n["attrs"][0] == "self.revoked_certs")
+    if not rl:
+        raise Undecided("lost anchor: loop over revoked_certs not found")
+    wrap = find_nodes(nf, lambda n: n["kind"] == "cons" and any(c["kind"] == "for" and c["attrs"][0] == "self.revoked_certs" for c in n["children"]))
+    if wrap:
+        m = model_of(z3.Xor(wrap[0][1], z3.Not(ctx.at.empty("self.revoked_certs"))), th())
+        res.append(("crl.revoked_list_iff_nonempty", m is None, "revokedCertificates written when [%s]" % (fmt_guard(wrap[0][1], th()) or "always"), m))
+    # entry extensions
+    enf = ctx.get("RevokedCertParams::write_der")
+    outer = enf[0]["children"] if enf and enf[0]["kind"] == "cons" else enf
+    ew = [n for n in outer if n["kind"] == "cons"]
+    if not ew:
+        raise Undecided("lost anchor: crlEntryExtensions SEQUENCE not found")
+    ewg = ew[0]["g"]
+    sites = ext_sites(ctx, ew[0]["children"], ewg)
+    res += check_ext_table(ctx, sites, ENTRY_EXT_TABLE, "crl.entry")
+    r2, inner = wrapper_vc(ctx, ewg, ew[0]["children"], "crl.entry.ext_wrapper")
+    res += r2
+    rs = [s for s in sites if s[0] == "oid::CRL_REASONS"]
+    if rs:
+        present = z3.Or(*[s[2] for s in rs])
+        some_r = ctx.at.some("self.reason_code")
+        unspec = ctx.at.is_variant("unwrap(self.reason_code)", "RevocationReason", "Unspecified")
+        m = model_of(z3.And(some_r, z3.Not(unspec), z3.Not(present)), th())
+        res.append(("crl.entry.reason_present_when_given", m is None, "a given reason (other than unspecified) is dropped" if m else "a reason other than unspecified is always written", m))
+        m = model_of(z3.And(present, z3.Not(some_r)), th())
+        res.append(("crl.entry.reason_absent_when_none", m is None, "a reason code is written although none was given" if m else "no reason code without a given reason", m))
+    return res, ctx
+
+
+def run_vcs(prop, group):
+    """group: 'cert' | 'csr' | 'crl'. Returns list of Ob."""
+    t0 = time.time()
+    fn = {"cert": vcs_cert, "csr": vcs_csr, "crl": vcs_crl}[group]
+    obs = []
+    try:
+        res, ctx = fn()
+    except Undecided as e:
+        return [Ob("%s.S.vc.%s" % (prop, group), "S", "structural", "z3 %s" % z3.get_version_string(), UNDECIDED, time.time() - t0, str(e))]
+    dt = (time.time() - t0) / max(1, len(res))
+    for name, ok, detail, model in res:
+        ob = Ob("%s.S.vc.%s" % (prop, name), "S", "structural", "z3 %s" % z3.get_version_string(), DISCHARGED if ok else FAILED, dt, detail,
+                signature=None if ok else name)
+        if not ok and model is not None:
+            ob.replay = {"kind": "atoms", "input": {"group": group, "atoms": model}}
+            ob.detail += " — counterexample atoms: " + ", ".join("%s=%s" % (k, v) for k, v in sorted(model.items()) if v)
+        obs.append(ob)
+    return obs
+
+
+def run_units(prop):
+    """compare every summary contract that lists `prop` with the normal form of the current code"""
+    obs = []
+    sdir = os.path.join(VERIF, "contracts", "summary")
+    for f in sorted(os.listdir(sdir)):
+        if not f.endswith(".sum"):
+            continue
+        for u in parse_sum(os.path.join(sdir, f)):
+            props = []
+            for p in open(os.path.join(sdir, f)).read().split("@unit " + u["unit"] + " ")[1].split("\n")[0].split():
+                if p.startswith("props="):
+                    props = p[6:].split(",")
+            if prop not in props:
+                continue
+            t0 = time.time()
+            oid = "%s.S.unit.%s" % (prop, u["unit"])
+            fns = ["rcgen::" + u["unit"]]
+            try:
+                nf, at, cu = normal_form(u["unit"], options=u["options"])
+                want = tree_of(u["lines"])
+                keep = not any(has_emission(x) for x in nf) or any(l[1].startswith("stmt ") for l in u["lines"])
+                compare(nf, want, at, keep)
+                obs.append(Ob(oid, "S", "structural", "z3 %s" % z3.get_version_string(), DISCHARGED, time.time() - t0,
+                              "emission normal form of %s (%s:%s) agrees with its summary contract (%d lines; guards equivalent)" % (u["unit"], cu["file"].replace(REPO + "/", ""), cu["line"], len(u["lines"])), functions=fns))
+            except Undecided as e:
+                obs.append(Ob(oid, "S", "structural", "z3", UNDECIDED, time.time() - t0, str(e), functions=fns))
+            except ValueError as e:
+                obs.append(Ob(oid, "S", "structural", "z3", UNDECIDED, time.time() - t0, "contract file error: %s" % e, functions=fns))
+            except Mismatch as e:
+                ob = Ob(oid, "S", "structural", "z3 %s" % z3.get_version_string(), FAILED, time.time() - t0, str(e), functions=fns,
+                        signature=str(e)[:160])
+                if e.model is not None:
+                    ob.replay = {"kind": "atoms", "input": {"group": "unit:" + u["unit"], "atoms": e.model}}
+                obs.append(ob)
+    return obs
+
+
+if __name__ == "__main__" and len(__import__("sys").argv) > 1 and __import__("sys").argv[1] == "--check":
+    import sys
+    for prop in sys.argv[2:]:
+        obs = run_units(prop)
+        for g in ("cert", "csr", "crl"):
+            obs += run_vcs(prop, g)
+        for o in obs:
+            print("%-95s %-10s %s" % (o.id, o.status, (o.detail or "")[:160]))
